@@ -5,6 +5,7 @@ from . import c17_gen as G
 from .common import fhex as _fhex, ints
 
 PROP_FILE = "Properties/C17.v"
+GEN = ["GenC17"]
 RUN_FILES = ["Model/C17_run.v"]
 
 FOUR_PI = 4 * math.pi
@@ -137,6 +138,9 @@ def area_laws(case, outs):
             if abs(o["area"] + o[nm] - FOUR_PI * rr * rr) > tol(rr):
                 fails.append(("C17.area.inverse." + cls, "area %.15g + area of %s %.15g != 4 pi r^2 = %.15g (%s)"
                               % (o["area"], "inverse()" if nm == "inv_area" else "invert()", o[nm], FOUR_PI * rr * rr, case["v"])))
+    if "invert2_area" in base and (abs(base["invert2_area"] - a1) > tol(1.0) or base.get("invert2_v") != [list(map(float, x)) for x in case["v"]]):
+        fails.append(("C17.area.invert_twice", "invert(); invert() on one object gives area %.15g / vertices %s, originally %.15g (%s)"
+                      % (base["invert2_area"], base.get("invert2_v"), a1, case["v"])))
     return fails
 
 
@@ -388,21 +392,31 @@ def run(ctx):
     pair_cases = make_pair_cases(ctx)
     obs = ctx.impl("c17", {"polys": req_polys, "pairs": [pair_request(c) for c in pair_cases]}, timeout=3000)
 
+    sampled = set()
     # ---- property oracle: area laws
     for c, (s, k) in zip(area_cases, spans):
         outs = obs["polys"][s:s + k]
         ctx.count("area_%s_%s" % (c["kind"], c["placement"]))
+        skey = "area_" + c["kind"]
         ctx.case(("area", repr(c["v"]), c["r"]), nontrivial=True,
-                 sample={"area_polygon": c["v"], "kind": c["kind"], "placement": c["placement"], "impl_area": outs[0].get("area")})
+                 sample=None if skey in sampled else {skey: c["v"], "placement": c["placement"], "radius": c["r"],
+                                                      "impl_area_r1": outs[0].get("area"), "impl_inverse_area_r1": outs[0].get("inv_area"),
+                                                      "diagonal": c["diag"], "shifts": c["shifts"]})
+        sampled.add(skey)
         for key, what in area_laws(c, outs):
             ctx.add_failure(key, what, {"oracle": "area", "case": c})
     # ---- property oracle: set operations
     for c, o in zip(pair_cases, obs["pairs"]):
         cls = pair_class(c)
         ctx.count("pair_%s_%s" % (c["stream"], cls))
+        skey = "pair_" + cls
         ctx.case(("pair", repr(c["a"]), repr(c["b"]), c["r"]), nontrivial=True,
-                 sample={"pair_" + cls: [c["a"], c["b"]], "relation": c["relation"],
-                         "impl_inter_area": o.get("inter_ab", {}).get("area"), "ref_inter_area": c["inter_ref"]})
+                 sample=None if skey in sampled else {skey: [c["a"], c["b"]], "relation": c["relation"], "radius": c["r"],
+                                                      "margin_rad": c["margin"], "min_crossing_angle_rad": c["cross_angle"],
+                                                      "impl_inter_area": o.get("inter_ab", {}).get("area"),
+                                                      "impl_union_area": o.get("union_ab", {}).get("area"),
+                                                      "ref_inter_area_r1": c["inter_ref"]})
+        sampled.add(skey)
         for key, what in pair_laws(c, o):
             ctx.add_failure(key, what, {"oracle": "pair", "case": {k: v for k, v in c.items() if not k.startswith("planar")}})
 
